@@ -101,14 +101,32 @@ def enc_op(op) -> str:
     return n
 
 
+def alias_equal(d, seen=None):
+    """sub-dicts with equal content become ONE object referenced from several keys (dict.fromkeys(keys, defaults),
+    o['front'] = o['rear'] = axle): ordinary Python, invisible in the value of the dict"""
+    seen = [] if seen is None else seen
+    for k, v in list(d.items()):
+        if isinstance(v, dict):
+            twin = next((x for x in seen if x == v and x is not v), None)
+            if twin is not None:
+                d[k] = twin
+            else:
+                seen.append(v)
+                alias_equal(v, seen)
+    return d
+
+
 def arg_value(arg):
     if arg[0] == "plain":
         v = copy.deepcopy(arg[1])
+        if ALIAS_ARGS[0]:
+            v = alias_equal(v)
         return nest_as_sdict(v) if NEST_ARGS[0] else v
     return mk_sdict(dict(arg[1], nested_sdict=True) if NEST_ARGS[0] else arg[1])
 
 
 NEST_ARGS = [False]       # set per case by the oracle / the trace (cases with "nested_sdict")
+ALIAS_ARGS = [False]      # cases with "alias_args": equal sub-dicts of an argument are one shared object
 
 
 def apply_impl(s, op):
@@ -225,6 +243,7 @@ def oracle(case: dict):
         return ctor_oracle(case)
     dictIO = _impl()
     NEST_ARGS[0] = bool(case.get("nested_sdict"))
+    ALIAS_ARGS[0] = bool(case.get("alias_args"))
     s = mk_sdict(dict(case["init"], nested_sdict=NEST_ARGS[0]))
     d = copy.deepcopy(case["init"]["data"])
     merged_args = []     # every argument ever passed to merge(): none may change, not by a LATER operation on the SDict either
@@ -438,6 +457,7 @@ def run_histories(ctx, cases):
     for c, ml in zip(cases, mout):
         # implementation trace in the model's syntax
         NEST_ARGS[0] = bool(c.get("nested_sdict"))
+        ALIAS_ARGS[0] = bool(c.get("alias_args"))
         s = mk_sdict(dict(c["init"], nested_sdict=NEST_ARGS[0]))
         parts = [f"l{len(c['ops'])}"]
         for op in c["ops"]:
@@ -491,6 +511,19 @@ def run(ctx):
             else:
                 ops.append(rand_op(rng, placeholders))
         cases.append({"init": init, "ops": ops, "ordinary": not placeholders, "placeholders": placeholders})
+    # arguments that reference ONE sub-dict object from several key paths, merged into a target that has those paths as dicts
+    for i in range(ctx.n(120, 2500)):
+        blk = {pool_key(rng): leaf_nodollar(rng) for _ in range(rng.randrange(2, 4))}
+        blk2 = dict(blk, inner={"x": 0, "y": 5})
+        names = rng.sample(["left", "right", "front", "rear", "a1", "b1"], rng.randrange(2, 4))
+        init = {"data": {nm: {k: "own" for k in list(blk)[: rng.randrange(0, 2)]} for nm in names}, "lc": {}, "bc": {}, "inc": {}, "ex": {}}
+        init["data"]["deep"] = {nm: {"inner": {"x": 1}} for nm in names[:2]}
+        other = {nm: copy.deepcopy(blk) for nm in names}
+        other["deep"] = {nm: copy.deepcopy(blk2) for nm in names[:2]}
+        ops = [(rng.choice(["merge", "merge", "update", "ior"]), ("plain", other), "")]
+        if rng.random() < 0.5:
+            ops.append(("merge", ("plain", {nm: {"late": 1} for nm in names}), ""))
+        cases.append({"init": init, "ops": ops, "ordinary": True, "placeholders": False, "alias_args": True})
     # the self-reference exception of merge (correspondence only; outside the ordinary domain)
     for i in range(ctx.n(100, 2000)):
         k = rng.choice(["a", "b", "ab"])
